@@ -615,7 +615,16 @@ def check_pipeline(h, recipe, subj: Subject, base_results, pipe, label):
             return changed_any, compared
         changed_any = True
         h.count("changed:" + pname)
-        nxt_res = subj.evaluate(work, fuel=FUEL * 4)
+        try:
+            nxt_res = subj.evaluate(work, fuel=FUEL * 4)
+        except (KeyError, refsem.UnsupportedOp, AssertionError, IndexError) as e:
+            # the input ran on the reference semantics, the output does not: the pass produced IR that
+            # verifies but is ill-formed (typically a use of a value that is not in scope / not yet defined)
+            h.mismatch({"check": "malformed_output", "pass": pname, "op": gone, "exc": type(e).__name__},
+                       one, f"output of {pname} (stage {stage} of {pipe}) cannot be executed by the reference "
+                       f"semantics although its input could: {e!r:.300}\n"
+                       + progen.render(stage_input(subj, pipe, stage))[:2000])
+            return changed_any, compared
         bad = None
         for i, (rb, ra) in enumerate(zip(cur_res, nxt_res)):
             verdict, why = refsem.compare_results(rb, ra)
